@@ -154,6 +154,8 @@ def walk(sub, flags):
                 items.append(('AtStart',))
             elif av is K.AT_END:
                 items.append(('AtEnd',))
+            elif av is K.AT_END_STRING:
+                items.append(('AtEndStrict',))
             else:
                 raise Untranslatable(f'anchor {av}')
         else:
@@ -175,7 +177,7 @@ def coq_cset(rs):
 
 def coq_re(r):
     t = r[0]
-    if t in ('Eps', 'BehindStart', 'AtStart', 'AtEnd'):
+    if t in ('Eps', 'BehindStart', 'AtStart', 'AtEnd', 'AtEndStrict'):
         return t
     if t == 'Chr':
         return f'(Chr {coq_cset(r[1])})'
@@ -239,6 +241,9 @@ def py_ends(r, s, i, caps):
             yield i, caps
     elif t == 'AtEnd':
         if i == len(s) or (i == len(s) - 1 and s[i] == '\n'):
+            yield i, caps
+    elif t == 'AtEndStrict':
+        if i == len(s):
             yield i, caps
     elif t == 'Grp':
         for j, c in py_ends(r[2], s, i, caps):
@@ -311,7 +316,7 @@ def generate():
             asts[name] = (a, groups)
             lines.append(f'Definition {name} : re :=\n  {coq_re(a)}.')
             for g, idx in sorted(groups.items(), key=lambda kv: kv[1]):
-                lines.append(f'Definition {name}__{g} : nat := {idx}.')
+                lines.append(f'Definition {name}_g_{g} : nat := {idx}.')
             names_ok.append(name)
             status[name] = 'ok'
         except Untranslatable as ex:
@@ -328,7 +333,7 @@ def generate():
             tl.append(f'TokSimple {coq_str(v)} tok_{v}')
         elif kind == 'special' and status.get('sp_re_pseudo_name') == 'ok' and all(status.get('tok_' + n) == 'ok' for n in v.values()):
             ent = '; '.join(f'({coq_str(ps)}, ({coq_str(n)}, tok_{n}))' for ps, n in v.items())
-            tl.append(f'TokSpecial sp_re_pseudo_name sp_re_pseudo_name__name [{ent}]')
+            tl.append(f'TokSpecial sp_re_pseudo_name sp_re_pseudo_name_g_name [{ent}]')
         else:
             ok = False
     lines.append('')
